@@ -548,6 +548,43 @@ impl FileId {
     }
 }
 
+/// Verification-only hooks, compiled only with the off-by-default `verif-hooks` feature.
+#[cfg(feature = "verif-hooks")]
+#[doc(hidden)]
+impl FileId {
+    /// Set the global file ID counter, to make the 63-bit wrap-around branch of
+    /// [`FileId::new`] reachable by a workload.
+    pub fn __verif_set_next(next: u64) {
+        NEXT.store(next, atomic::Ordering::Release)
+    }
+
+    /// Build a file ID from a raw non-zero 63-bit value (`None` otherwise).
+    pub fn __verif_from_raw(id: u64) -> Option<Self> {
+        if id & ID_MASK != id {
+            return None;
+        }
+        NonZeroU64::new(id).map(|id| Self { id })
+    }
+
+    /// The raw integer value of this file ID.
+    pub fn __verif_raw(self) -> u64 {
+        self.id.get()
+    }
+}
+
+/// Verification-only hook, compiled only with the off-by-default `verif-hooks` feature.
+#[cfg(feature = "verif-hooks")]
+#[doc(hidden)]
+impl SourceSpan {
+    /// Build a location without parsing anything.
+    pub fn __verif_new(file_id: FileId, start: u32, end: u32) -> Self {
+        Self {
+            file_id,
+            text_range: TextRange::new(start.into(), end.into()),
+        }
+    }
+}
+
 impl TaggedFileId {
     pub(crate) const fn pack(tag: bool, id: FileId) -> Self {
         debug_assert!((id.id.get() & TAG) == 0);
